@@ -459,13 +459,8 @@ def opTreeTaken (a : Actor) : M :=
   let a2 : Actor := if a1.status.rank ≤ Status.upgrading.rank then (apiKill a1).1 else a1
   ({ a2 with kids := none }, [.eff (.cascade (a2.kids.getD []))])
 
-def Actor.stepCore (a : Actor) : AOp → M
-  | .spawn sup => opSpawn a sup
-  | .pollSpawn supOk => opPollSpawn a supOk
-  | .dropSpawn => opDropSpawn a
-  | .poll => opPoll a
-  | .abort => opAbort a
-  | .resume s => opResume a s
+/-- API calls and environment ops on an existing cell. -/
+def Actor.envOp (a : Actor) : AOp → M
   | .send m => ((apiSend a m).1, [.ev (.sendRet false m (apiSend a m).2)])
   | .stop r => ((apiStop a r).1, [.ev (.stopRet false r (apiStop a r).2)])
   | .kill => ((apiKill a).1, [.ev (.killRet false (apiKill a).2)])
@@ -474,6 +469,16 @@ def Actor.stepCore (a : Actor) : AOp → M
   | .treeTaken => opTreeTaken a
   | .kidAdd c => ({ a with kids := a.kids.map (fun l => if l.contains c then l else l ++ [c]) }, [])
   | .kidDel c => ({ a with kids := a.kids.map (fun l => l.filter (· != c)) }, [])
+  | _ => (a, [])
+
+def Actor.stepCore (a : Actor) : AOp → M
+  | .spawn sup => opSpawn a sup
+  | .pollSpawn supOk => opPollSpawn a supOk
+  | .dropSpawn => opDropSpawn a
+  | .poll => opPoll a
+  | .abort => opAbort a
+  | .resume s => opResume a s
+  | op => if a.phase = .fresh then (a, [.note "nocell"]) else a.envOp op   -- no cell, nothing to call
 
 /-- The transition function: `stepCore`, then the observed-supervisor event if it changed. -/
 def Actor.step (a : Actor) (op : AOp) : M :=
@@ -592,6 +597,27 @@ def World.step (w : World) (op : Op) : World × List WOut × List WOut :=
     let fuel := 4 * (w.actors.length + 1) * (r.2.length + 1) + 8
     let r' := World.effects fuel r.1 r.2
     (r'.1, r.2, r'.2)
+
+/-! ### Source-derived tables the model depends on (tied to `Extracted` in `Props/`) -/
+
+/-- `listen` tests the ports in this order (the textual arm order of the biased `select!`). -/
+def selectOrder : List String := ["signal", "stop", "supervision", "message"]
+
+/-- `pollOpen` tests the signal port before polling the callback future (`run_with_signal`). -/
+def runWithSignalOrder : List String := ["signal", "new_state"]
+
+/-- `cleanup` performs these steps in this order. -/
+def cleanupSteps : List String :=
+  ["set_status:Stopping", "terminate", "notify_supervisor", "unlink", "set_status:Stopped"]
+
+/-- `Status.rank` as a table. -/
+def statusTable : List (String × Nat) :=
+  [("Unstarted", Status.unstarted.rank), ("Starting", Status.starting.rank), ("Running", Status.running.rank),
+   ("Upgrading", Status.upgrading.rank), ("Draining", Status.draining.rank), ("Stopping", Status.stopping.rank),
+   ("Stopped", Status.stopped.rank)]
+
+/-- `opTreeTaken` kills a child whose status satisfies this (`ActorCell::terminate`). -/
+def terminateKillCondition : String := "<= Upgrading"
 
 /-! ### Property predicates on one actor's trace
 
